@@ -566,6 +566,11 @@ impl Sched {
         self.lock().threads[tid].state == TState::Finished
     }
 
+    /// Debugging aid: the scheduler's view of a thread.
+    pub fn thread_state_debug(&self, tid: usize) -> String {
+        format!("{:?}", self.lock().threads[tid].state)
+    }
+
     pub fn thread_name(&self, tid: usize) -> String {
         self.lock().threads[tid].name.clone()
     }
